@@ -193,6 +193,33 @@ class FakeWriter:
         return default
 
 
+class _QuietWriter:
+    def __init__(self, reader):
+        self._reader, self.closed = reader, False
+
+    def write(self, data):
+        if self.closed:
+            raise ConnectionResetError("write on a closed link")
+
+    async def drain(self):
+        return None
+
+    def close(self):
+        if not self.closed:
+            self.closed = True
+            if not self._reader.at_eof():
+                self._reader.feed_eof()
+
+    def is_closing(self):
+        return self.closed
+
+    async def wait_closed(self):
+        return None
+
+    def get_extra_info(self, name, default=None):
+        return default
+
+
 class Script:
     """gateway behaviour; override what a scenario needs"""
 
@@ -228,6 +255,8 @@ def callback_failure(n: int, text: str) -> Exception:
 
 
 class Session:
+    created = 0          # sessions made so far in this process (the callback form rotates with it)
+
     def __init__(self, script: Script | None = None):
         self.loop = VLoop()
         self.script = script or Script()
@@ -257,6 +286,8 @@ class Session:
 
     # -- what replaces asyncio.open_connection / serial_asyncio.open_serial_connection ----------
     async def _open(self, *a, **k):
+        if (a and a[0] in ("gw2", "/dev/null2")) or k.get("url") == "/dev/null2" or k.get("host") == "gw2":
+            return await self._open_bystander(k)
         self.attempts += 1
         n = self.attempts
         self.ev("Open", k=n)
@@ -274,6 +305,22 @@ class Session:
         self.readers[n], self.writers[n] = reader, writer
         self.ev("OpenResult", k=n, r="accept")
         self.script.on_accept(self, n)
+        return reader, writer
+
+    # -- a second client of the same process (another gateway on the boat): not observed, only there ------------------
+    async def _open_bystander(self, k):
+        """its gateway refuses two attempts out of three, feeds a few packets in odd pieces and drops the link after 2.5 s:
+        the bystander is connecting, waiting between attempts, reading and reconnecting all the time"""
+        self.by_attempts = getattr(self, "by_attempts", 0) + 1
+        if self.by_attempts % 3 != 0:
+            raise ConnectionRefusedError("bystander refused")
+        reader = asyncio.StreamReader(limit=k.get("limit", 2 ** 16))
+        writer = _QuietWriter(reader)
+        data = self.bystander_data
+        t0 = self.loop.time()
+        for j in range(0, len(data), 7):
+            self.loop.call_at(t0 + 0.11 + 0.13 * (j // 7), lambda j=j: (not writer.closed) and reader.feed_data(data[j:j + 7]))
+        self.loop.call_at(t0 + 2.5, lambda: (not writer.closed) and reader.feed_eof())
         return reader, writer
 
     # -- environment actions --------------------------------------------------------------------
@@ -317,7 +364,9 @@ class Session:
         return self.loop.create_task(wrapper(), name=f"user-{name}")
 
     # -- running --------------------------------------------------------------------------------
-    def run(self, make_client, scenario, until: float = 120.0, status_cb="ok", recv_cb="ok", heartbeat=True, register="first"):
+    def run(self, make_client, scenario, until: float = 120.0, status_cb="ok", recv_cb="ok", heartbeat=True, register="first",
+            cb_kind: str | None = None, bystander=None):
+        """bystander = (client kind, bytes its gateway keeps sending): a second client object lives in the same process"""
         """make_client() -> client (called inside the loop); scenario(sess) schedules everything else"""
         import nmea2000.ioclient as ioc
         loop = self.loop
@@ -355,7 +404,7 @@ class Session:
                     self.ev("StaleDeliver", tag=str(tag))
                     return
                 await receive(msg)
-            self.client.set_receive_callback(tagged)
+            self.client.set_receive_callback(self.dress(tagged))
         self.register_receiver = register_receiver
 
         async def receive(msg):
@@ -382,12 +431,45 @@ class Session:
                 self.beats += 1
                 self.ev("Beat")
 
+        # the callbacks are handed over in the forms applications use: a coroutine function, an object whose class defines
+        # `async def __call__`, a plain function returning the coroutine (a lambda or decorator around the handler), a partial
+        Session.created += 1
+        kind_ = cb_kind or ("function", "object", "wrapper", "partial")[Session.created % 4]
+        self.cb_kind = kind_
+
+        def dress(fn):
+            if kind_ == "object":
+                class Handler:
+                    async def __call__(self, x):
+                        return await fn(x)
+                return Handler()
+            if kind_ == "wrapper":
+                return lambda x: fn(x)
+            if kind_ == "partial":
+                import functools
+
+                async def with_extra(_tag, x):
+                    return await fn(x)
+                return functools.partial(with_extra, "tag")
+            return fn
+        self.dress = dress
+
         async def boot():
             self.client = make_client()
-            self.client.set_status_callback(status)
+            self.client.set_status_callback(dress(status))
             if register == "first":
-                self.client.set_receive_callback(receive)
+                self.client.set_receive_callback(dress(receive))
             self.ev("Created")
+            if bystander is not None:
+                bkind, self.bystander_data = bystander
+
+                async def nothing(_x):
+                    return None
+                self.client2 = make_client_factory(bkind, _bystander=True)()
+                self.client2.set_status_callback(nothing)
+                self.client2.set_receive_callback(nothing)
+                loop.create_task(self.client2.connect(), name="bystander-connect")
+                loop.call_at(max(1.0, until - 6.0), lambda: loop.create_task(self.client2.close(), name="bystander-close"))
             scenario(self)
 
         def handler(lp, ctx):
@@ -440,14 +522,16 @@ def _task_label(t) -> str:
 CLIENTS = ("ebyte", "actisense", "yd", "waveshare")
 
 
-def make_client_factory(kind: str, **kw):
+def make_client_factory(kind: str, _bystander: bool = False, **kw):
+    host, port = ("gw2", "/dev/null2") if _bystander else ("gw", "/dev/null")
+
     def make():
         import nmea2000.ioclient as ioc
         if kind == "ebyte":
-            return ioc.EByteNmea2000Gateway("gw", 1, **kw)
+            return ioc.EByteNmea2000Gateway(host, 1, **kw)
         if kind == "actisense":
-            return ioc.ActisenseNmea2000Gateway("gw", 1, **kw)
+            return ioc.ActisenseNmea2000Gateway(host, 1, **kw)
         if kind == "yd":
-            return ioc.YachtDevicesNmea2000Gateway("gw", 1, **kw)
-        return ioc.WaveShareNmea2000Gateway("/dev/null", **kw)
+            return ioc.YachtDevicesNmea2000Gateway(host, 1, **kw)
+        return ioc.WaveShareNmea2000Gateway(port, **kw)
     return make
